@@ -3,7 +3,7 @@ from props import element_common as ec
 
 NAMESPACE = 'C13'
 LEAN_TARGETS = ['MxV.Props.C13']
-THEOREMS = ['frame', 'fresh_independent', 'class_mutables_known', 'class_cells_known']
+THEOREMS = ['frame', 'fresh_independent', 'isolation', 'isolation_worlds', 'class_mutables_known', 'class_cells_known']
 TRUSTED_BASE = ['Lean 4.33.0 kernel', 'axioms: propext, Quot.sound, Classical.choice only (audited per theorem)',
                 'translator extract/*.py (attribute / validator / template tables regenerated every run)',
                 'correspondence harness: real XMLElement trees vs the Lean models Element, Values, Serialize, Parser, Mfull through mxdriver',
